@@ -85,7 +85,7 @@ PROPS = {
         "Machine-checked proof at FSM level for every record and event, with all pause/resume interleavings up to the tier's length enumerated against the real code in every status.",
         "manager-level effects (transport pause/resume, announcement messages, stay-paused rule) are in Node.v and tied to the code by nodeapi with direct monitors",
         corr=NODE_CORR),
-    "C16": P("props/C16.v", ["transport"],
+    "C16": P("props/C16.v", ["transport", "gsnode"],
         "Coq theorems over the adaptor model Transport.tstep: every handler call of a request-keyed callback carries the owner channel, unknown requests / missing extensions / cleaned-up channels are silent (with the reachable-state invariant that mapped requests belong to tracked channels), off-wire blocks unaccounted, commands on the current request, completion reported once, stores registered for the lifetime; the real Transport over a fake GraphExchange is compared step by step incl. its bookkeeping snapshot",
         "Machine-checked proof over the hand-written model of graphsync.go, tied to the real adaptor by close / restart products and generated callback sequences over several channels and requests with cleanup anywhere; direct owner-table monitors on the implementation.",
         "graphsync itself (which callbacks it makes, authenticated peer) is not modelled: callbacks are inputs; the blocking structure of open/close is modelled as sequential completion (the fake GraphExchange completes cancels at once), hangs are caught by the watchdog",
